@@ -55,6 +55,7 @@ def run(ctx):
     from . import c01 as _c01
     _c01.r110(ctx, 'R3.12')
     _c01.r126(ctx, 'R3.26')
+    _c01.r127(ctx, 'R3.27')
     m = ctx.repo['cencoding']
     # R3.4: only the decoders matter for reading foreign files
     saved = c11.LOOPS
